@@ -166,7 +166,7 @@ def obsToJson (i : Input) (o : Obs) : Json :=
     ("tampered", o.tampered), ("sp", spJ)]
 
 def refusalS : Refusal → String
-  | .noUsableCert => "no-usable-cert" | .objectForm => "object-form" | .parseObject => "parse-object"
+  | .noUsableCert => "no-usable-cert" | .parseObject => "parse-object"
 
 def errS : Sp.Err → String
   | .sigMissingResponse => "sigMissingResponse" | .sigBadResponse => "sigBadResponse"
